@@ -1,6 +1,6 @@
 /-! # Byte-level view of string quoting (printer) and unquoting (lexer)
 
-`quoteB` is `quoteString` of /repo/language/printer/printer.go:128 exactly as written there: a loop over the
+`quoteB` is `quoteString` of /repo/language/printer/printer.go:167 exactly as written there: a loop over the
 **bytes** of the value (`for i := 0; i < len(s); i++ { c := s[i] … }`).
 
 `unquoteB` is an independent, small model of the loop of `readString` (/repo/language/lexer/lexer.go:218) in its
